@@ -181,5 +181,8 @@ def run(prog, rep):
     from .. import mutrules as M
     ct = Container(prog)
     rep.attempt(M.dirty_entry, ct, rep, rule="table-pairing")
+    rep.attempt(M.eq_on_decoded_content, ct, rep)
+    # .. and positions the cursor only on whole table slots or data ranges: a seek INTO a slot is the start of a partial rewrite
+    rep.attempt(M.header_frame, ct, rep, rule="table-pairing/frame")
     rep.attempt(PR.string_codec, prog, rep, with_nul_cut=False)
     rep.not_decided += ["garbage inside declared data fields (not don't-care bytes)"]
